@@ -190,8 +190,9 @@ def _rdma_oscillation_signature(t, line):
 
 def _dual_oscillation_signature(t, line):
     """A third shape (dual stack): the IPv6 pool is below its minimum (no idle Valid IPv6 address on any ordinary in-use
-    interface), so one is assigned; the trimming side sizes the surplus on the IPv4 idle count (more than the maximum,
-    e.g. untrimmable primary addresses) and takes the new IPv6 address away again."""
+    interface), so one is assigned; the trimming side sizes the surplus on the IPv4 idle count of all in-use interfaces
+    (more than the maximum, e.g. untrimmable primary addresses, idle addresses of the RDMA interface) and takes the new
+    IPv6 address away again."""
     w = _osc_window(t, line)
     cf = t[0].get("conf", {})
     if w is None or not (cf.get("v4") and cf.get("v6")):
@@ -199,8 +200,11 @@ def _dual_oscillation_signature(t, line):
     hits, trims6 = set(), set()
     for k, (before, evs, after) in enumerate(w):
         inuse = {x["e"]: x for x in before["enis"] if x["st"] == "InUse" and not x["rdma"]}
+        allinuse = {x["e"] for x in before["enis"] if x["st"] == "InUse"}
         idle = [i for i in before["ips"] if i["p"] == 0 and i["st"] == "Valid" and i["e"] in inuse]
-        idle4, idle6 = [i for i in idle if i["a"] < 100], [i for i in idle if i["a"] >= 100]
+        idle6 = [i for i in idle if i["a"] >= 100]
+        # adjustPool counts the IPv4 idle addresses of EVERY in-use interface (RDMA ones and primaries included)
+        idle4 = [i for i in before["ips"] if i["p"] == 0 and i["st"] == "Valid" and i["e"] in allinuse and i["a"] < 100]
         for r in evs:
             if r["ev"] in ("create_begin", "delete_begin", "detach", "attach"):
                 return False
